@@ -241,6 +241,60 @@ def rule_once_c01(ctx):
                            f"`{head(jumps[0])}` inside the item loop: an item can leave the loop body without its flags being recorded", []))
         else:
             r.ok()
+    # what is recorded for an item is computed for that item: every variable appended to a per-item list
+    # is (re)assigned on every path through the loop body before it is appended
+    def definitely(stmts, have):
+        """names definitely assigned after stmts (None when the block never completes); records appends"""
+        have = set(have)
+        for st in stmts:
+            for n in ast.walk(st) if not isinstance(st, (ast.If, ast.Try, ast.For, ast.While, ast.With)) else []:
+                if isinstance(n, ast.Call) and isinstance(n.func, ast.Attribute) and n.func.attr == "append" and isinstance(n.func.value, ast.Name) and n.func.value.id in lists \
+                        and n.args and isinstance(n.args[0], ast.Name):
+                    recorded.append((n.func.value.id, n.args[0].id, n.args[0].id in have, st))
+            if isinstance(st, ast.Assign):
+                for t in st.targets:
+                    for x in ast.walk(t):
+                        if isinstance(x, ast.Name) and isinstance(x.ctx, ast.Store):
+                            have.add(x.id)
+            elif isinstance(st, ast.If):
+                a = definitely(st.body, have)
+                b = definitely(st.orelse, have)
+                if a is None and b is None:
+                    return None
+                have = (a if b is None else b if a is None else a & b)
+            elif isinstance(st, ast.Try):
+                a = definitely(st.body, have)
+                if a is not None and st.orelse:
+                    a = definitely(st.orelse, a)
+                outs = [a] if a is not None else []
+                for h in st.handlers:
+                    hb = definitely(h.body, have)
+                    if hb is not None:
+                        outs.append(hb)
+                if not outs:
+                    return None
+                have = set.intersection(*outs)
+                if st.finalbody:
+                    fb = definitely(st.finalbody, have)
+                    have = fb if fb is not None else have
+            elif isinstance(st, (ast.For, ast.While, ast.With)):
+                inner = definitely(st.body, have)
+                if isinstance(st, ast.With) and inner is not None:
+                    have = inner
+            elif isinstance(st, (ast.Continue, ast.Break, ast.Return, ast.Raise)):
+                return None
+        return have
+    recorded = []
+    definitely(loop.body, {x.id for x in ast.walk(loop.target) if isinstance(x, ast.Name)})
+    for lst, var, fresh, st in recorded:
+        inst = {"list": lst, "records": var, "assigned within the iteration on every path": fresh}
+        r.instances.append(inst)
+        if fresh:
+            r.ok()
+        else:
+            r.fail(Finding("R-ONCE/C01", f"R-ONCE|conditions.Condition._filter|{lst}|stale:{var}", f"{f.file}:{st.lineno}",
+                           f"`{lst}.append({var})`: `{var}` is not assigned on every path through the item loop before it is recorded, so an item can inherit the flag "
+                           f"computed for an earlier item (e.g. once one item made the callable raise, every later item is recorded as an error)", []))
     # nothing after the loop touches the lists before they are handed over
     idx = f.node.body.index(loop)
     for st in f.node.body[idx + 1:]:
